@@ -21,7 +21,8 @@ open Biogo.Go.Bytes
 
     * `fasta.Reader.Read`: `line[len(r.SeqPrefix):]` — `sliceFrom` in `Fasta.read`;
     * `fasta.Reader.header` / `fastq.Reader.readHeader`: the three slices — `slice`/`sliceFrom` in
-      `header` / `readHeader`; `r.t.Clone().(seqio.SequenceAppender)` — assumption: the template
+      `header` / `readHeader` (in `header`, since fix `501e905`, the prefix is cut off first and the
+      separator is looked for in the rest); `r.t.Clone().(seqio.SequenceAppender)` — assumption: the template
       is a `linear.Seq`/`linear.QSeq`, whose `Clone` returns the same type;
     * `fasta.Writer.Write`: `i % w.Width` — `.divideByZero` in `writeLoop`;
     * `fastq.Reader.Read`: `label[1:]`, `line[1:]` (twice each) — `sameLabel`; `seqBuff[i]`,
@@ -37,7 +38,7 @@ theorem panic_sites_modelled :
     Biogo.Generated.Seqio.panicSites = [
       ("fasta.Reader.Read", ["line[len(r.SeqPrefix):]"]),
       ("fasta.Reader.header", ["r.t.Clone().(seqio.SequenceAppender)", "line[len(r.IDPrefix):]",
-        "line[len(r.IDPrefix):fieldMark]", "line[fieldMark+1:]"]),
+        "line[:fieldMark]", "line[fieldMark+1:]"]),
       ("fasta.Writer.Write", ["i % w.Width"]),
       ("fastq.Reader.Read", ["label[1:]", "line[1:]", "label[1:]", "line[1:]", "seqBuff[i]", "seqBuff[:i]",
         "line[:0]", "seqBuff[i]", "line[i]"]),
@@ -73,6 +74,26 @@ theorem fasta_record_or_error (bs : Bytes) :
     ∀ r, Call.ret r ∈ readAll {} bs → r.s.isSome ∨ r.e.isSome := by
   have := readAllAux_total ((splitLines bs).length + 1) {} (splitLines bs) (by simp [Fasta.measure])
   exact this.2.2.2.2
+
+/-- **never panics, every user-set `IDPrefix` / `SeqPrefix`** (FASTA; the exported fields of the
+    reader — e.g. the `##DNA ` / `##` that `gff.Writer` writes): for every byte string and every
+    pair of prefixes no call panics, the budget is never exhausted, the history has at most
+    `lineCount bs + 1` entries, ends with `io.EOF`, and every call returns a sequence or an error.
+    Before fix `501e905` an `IDPrefix` containing a blank made every header line panic. -/
+theorem fasta_total_any_prefixes (cfg : Cfg) (bs : Bytes) :
+    (∀ p, Call.panic p ∉ readAll cfg bs) ∧ Call.unfinished ∉ readAll cfg bs ∧
+    (readAll cfg bs).length ≤ lineCount bs + 1 ∧
+    (∃ r, (readAll cfg bs).getLast? = some (Call.ret r) ∧ r.e = some .eof) ∧
+    (∀ r, Call.ret r ∈ readAll cfg bs → r.s.isSome ∨ r.e.isSome) := by
+  have := readAllAux_total_cfg cfg ((splitLines bs).length + 1) {} (splitLines bs) (by simp [Fasta.measure])
+  refine ⟨this.1, this.2.1, ?_, this.2.2.2.1, this.2.2.2.2⟩
+  have h := this.2.2.1
+  simpa [Fasta.measure, lineCount, readAll] using h
+
+-- the witness of the defect: `IDPrefix = "##DNA "`, input `##DNA x / ##acgt` is read as the record
+example : readAll { idPrefix := [35, 35, 68, 78, 65, 32], seqPrefix := [35, 35] }
+    [35, 35, 68, 78, 65, 32, 120, 10, 35, 35, 97, 99, 103, 116, 10]
+    = [.ret ⟨some ⟨[120], [], [97, 99, 103, 116]⟩, none⟩, .ret ⟨none, some .eof⟩] := by decide
 
 /-- **rejects data before a header** (FASTA): if the first non-blank line does not start with
     `>`, the first call returns the error "badly formed line" and no sequence. -/
